@@ -183,6 +183,37 @@ fn eval_shape(_ctx: &Ctx, case: &ShapeCase) -> Verdict {
         }
         ensure!(got.as_slice() == naive.as_slice(), "sum(Axis({a})) of shape {shape:?} = {:?}, naive sum {naive:?}", got.as_slice());
         ensure!(got.as_slice() == sum_of_views.as_slice(), "sum(Axis({a})) of shape {shape:?} differs from the sum of its views");
+        // the same on values of mixed sign, on an all-negative array and with zeros (sums are a
+        // property of the positions, not of the sign of what is stored there)
+        for variant in 0..3u8 {
+            let value = |k: usize| -> f64 {
+                let v = (k + 1) as f64;
+                match variant {
+                    0 => -v,
+                    1 => match (k * 7 + 3) % 5 {
+                        0 | 1 => -v,
+                        2 => 0.0,
+                        _ => v,
+                    },
+                    // sign decided by the position along the summed axis: whole views are negative
+                    _ => {
+                        if odo[k][a] % 2 == 0 {
+                            -v
+                        } else {
+                            v
+                        }
+                    }
+                }
+            };
+            let signed = Array::new((0..n).map(value).collect::<Vec<_>>(), shape.to_vec()).expect("shape fits");
+            let got = g(&format!("Array::sum(Axis({a})) on signed values, shape {shape:?}"), || signed.sum(Axis(a)))?;
+            let mut naive = vec![0.0f64; n / shape[a]];
+            for idx in &odo {
+                let reduced: Vec<usize> = idx.iter().enumerate().filter(|(i, _)| *i != a).map(|(_, &v)| v).collect();
+                naive[flat(&want_shape, &reduced)] += value(flat(shape, idx));
+            }
+            ensure!(got.as_slice() == naive.as_slice(), "sum(Axis({a})) of shape {shape:?} with signed values (variant {variant}) = {:?}, naive sum {naive:?}", got.as_slice());
+        }
     }
 
     // --- FrequenciesIter: count, len, values
@@ -403,7 +434,7 @@ pub fn check(ctx: &Ctx) -> Check {
     let parts: Vec<Box<dyn Part>> = vec![
         Box::new(EnumPart {
             name: "shapes",
-            rule: "every shape with 1..5 axes and lengths 1..5 (thorough 1..6) plus every shape with 6..7 axes of lengths 1..2, distinct integer fill; all indices, all (axis, position) views, all out-of-range requests; non-trivial = >=2 axes with unequal lengths, or a one-axis array; distinct by shape",
+            rule: "every shape with 1..5 axes and lengths 1..5 (thorough 1..6) plus every shape with 6..7 axes of lengths 1..2, distinct integer fill; all indices, all (axis, position) views, all out-of-range requests; Array::sum along every axis against the naive sum and the sum of views, on the positive fill and on three signed fills (all negative, mixed with zeros, sign by position along the summed axis); non-trivial = >=2 axes with unequal lengths, or a one-axis array; distinct by shape",
             exhaustive: true,
             cases: Box::new(move |_| {
                 let mut v: Vec<ShapeCase> = all_shapes(5, 1, max_len).into_iter().map(|shape| ShapeCase { shape }).collect();
